@@ -32,7 +32,8 @@ type Op struct {
 	S  int    `json:"s"` // storage slot 1|2
 	R  int    `json:"r"` // withdraw record id / index
 	H  int    `json:"h"` // transaction hash id (0 = none)
-	B  int    `json:"b"` // 1 = blind: take no dump at this step (reads fill lazy caches); CopySwap and the Reload after it
+	Tag string `json:"tag"` // root computations: the content the model says has been written (echoed to the monitor)
+	B  int    `json:"b"` // 2 = no dump BEFORE the root computation (Root / Commit / Reload); 1 = blind: take no dump at this step (reads fill lazy caches); CopySwap and the Reload after it
 }
 
 const (
@@ -515,8 +516,27 @@ func (w *world) apply(op *Op, ev map[string]interface{}) {
 		st.PendingValidatorExist(w.vals[op.V].Addr)
 	case "Finalise":
 		st.Finalise(true)
+	case "ReadComp":
+		// a read of ONE lazily loaded component
+		switch op.D {
+		case 1:
+			st.GetValidatorsStat()
+		case 2:
+			st.GetValidatorByMainAddr(w.vals[1].Addr)
+			st.VerifValidatorIndex()
+		case 3:
+			st.GetWithdrawQueue()
+		case 4:
+			st.PendingRelationshipExist(w.accts[1].Addr, w.vals[1].Addr)
+		case 5:
+			st.GetStakingRecord(common.Address{}, w.vals[1].Addr)
+		case 6:
+			st.VerifDelegations(w.accts[1].Addr)
+		}
 	case "Root":
-		ev["pre"] = w.getterDump(st) // what the object shows BEFORE the root computation
+		if op.B != 2 {
+			ev["pre"] = w.getterDump(st) // what the object shows BEFORE the root computation
+		}
 		a, b, c := st.IntermediateRoot(true)
 		ev["roots"] = fixture.Roots(a, b, c)
 		ev["live"] = w.getterDump(st)
@@ -553,7 +573,9 @@ func (w *world) apply(op *Op, ev map[string]interface{}) {
 			}
 			break
 		}
-		ev["pre"] = w.getterDump(st)
+		if op.B != 2 {
+			ev["pre"] = w.getterDump(st)
+		}
 		a, b, c, err := st.Commit(true)
 		if err != nil {
 			panic(err)
